@@ -58,6 +58,7 @@ package data
 //@ loop 0 decreases len(remaining)
 //@ at call github.com/ipld/go-ipld-prime/fluent/qp.MapEntry#1 assert wire-number-1-is-MimeType: fieldNum == 1 && callee_k == "MimeType"
 //@ func data.consumeBlockSizes
+//@ at return assert a-packed-size-is-rejected-only-when-its-varint-is-malformed: err != nil ==> n < 0
 //@ loop 0 invariant 0 <= i
 //@ loop 0 decreases int(count) - i
 
